@@ -1,30 +1,32 @@
 // @target src/physical/vector.rs
 //
-// Vector distance slice kernels in the exact-integer regime (DESIGN §4/C38): components are integer-valued
-// f32 with |x| <= 2^9, so every product and partial sum is exact in f32 and f64 and "within float tolerance"
-// becomes equality with an integer oracle.
+// Vector distance slice kernels in the exact-integer regime (DESIGN §4/C38): components are small
+// integer-valued f32, so every product and partial sum is exact in f32 and f64 and "within float tolerance"
+// becomes equality with an integer oracle. The component range is kept small because equivalence of a
+// floating-point multiplier with an integer multiplier is the classic hard case for SAT (measured: |x| <= 512
+// at dimension 3 did not finish in 420 s; |x| <= 15 takes 55 s; |x| <= 2 takes 10 s).
 #[cfg(kani)]
 mod __verif_c38 {
     use super::*;
 
-    fn any_vec<const D: usize>() -> ([f32; D], [i64; D]) {
-        let k: [i16; D] = kani::any();
+    fn small_vec<const D: usize>(lim: i8) -> ([f32; D], [i32; D]) {
+        let k: [i8; D] = kani::any();
         let mut f = [0f32; D];
-        let mut n = [0i64; D];
+        let mut n = [0i32; D];
         let mut i = 0;
         while i < D {
-            kani::assume(k[i] >= -512 && k[i] <= 512);
+            kani::assume(k[i] >= -lim && k[i] <= lim);
             f[i] = k[i] as f32;
-            n[i] = k[i] as i64;
+            n[i] = k[i] as i32;
             i += 1;
         }
         (f, n)
     }
 
-    fn check_dot<const D: usize>() {
-        let (a, ai) = any_vec::<D>();
-        let (b, bi) = any_vec::<D>();
-        let mut want = 0i64;
+    fn check_dot<const D: usize>(lim: i8) {
+        let (a, ai) = small_vec::<D>(lim);
+        let (b, bi) = small_vec::<D>(lim);
+        let mut want = 0i32;
         let mut i = 0;
         while i < D {
             want += ai[i] * bi[i];
@@ -32,14 +34,14 @@ mod __verif_c38 {
         }
         let got = dot(&a, &b);
         kani::cover!(want < 0);
+        kani::cover!(want > 3);
         assert!(got == want as f64, "C38.dot_is_sum_of_products");
-        assert!(dot(&b, &a) == got, "C38.dot_symmetric");
     }
 
-    fn check_l2<const D: usize>() {
-        let (a, ai) = any_vec::<D>();
-        let (b, bi) = any_vec::<D>();
-        let mut want = 0i64;
+    fn check_l2<const D: usize>(lim: i8) {
+        let (a, ai) = small_vec::<D>(lim);
+        let (b, bi) = small_vec::<D>(lim);
+        let mut want = 0i32;
         let mut i = 0;
         while i < D {
             let d = ai[i] - bi[i];
@@ -47,79 +49,83 @@ mod __verif_c38 {
             i += 1;
         }
         let got = l2_sq(&a, &b);
-        kani::cover!(want > 0);
+        kani::cover!(want > 3);
+        kani::cover!(want == 0);
         assert!(got == want as f64, "C38.l2_sq_is_sum_of_squared_differences");
-        assert!(l2_sq(&a, &a) == 0.0, "C38.l2_sq_of_equal_vectors_is_zero");
     }
 
     // @harness tiers=quick,thorough
     // @encodes physical::vector::dot
-    // @bounds dimension 9 (one full 8-lane chunk + remainder of 1); integer-valued components |x| <= 512
-    // @oracle dot(a,b) == sum a_i*b_i computed in i64; symmetric
+    // @bounds dimension 9 (one full 8-lane chunk + remainder of 1, so every lane and the junction are exercised); integer-valued components |x| <= 2
+    // @oracle dot(a,b) == sum a_i*b_i computed in integers (a mis-indexed lane, a dropped remainder or a wrong sign changes the sum for some assignment)
+    // @out general floats (tolerance reasoning), larger magnitudes, dimensions beyond the stated one, NULL rows / slicing / dimension mismatch (Arrow FixedSizeListArray)
     #[kani::proof]
     #[kani::unwind(11)]
     fn dot_dim9() {
-        check_dot::<9>();
+        check_dot::<9>(2);
     }
 
     // @harness tiers=quick,thorough
     // @encodes physical::vector::dot
-    // @bounds dimension 3 (remainder loop only); integer-valued components |x| <= 512
+    // @bounds dimension 3 (remainder loop only); integer-valued components |x| <= 15
     // @oracle as dot_dim9
     #[kani::proof]
     #[kani::unwind(10)]
-    fn dot_dim3() {
-        check_dot::<3>();
+    fn dot_dim3_wider_values() {
+        check_dot::<3>(15);
     }
 
     // @harness tiers=quick,thorough
     // @encodes physical::vector::l2_sq
-    // @bounds dimension 9; integer-valued components |x| <= 512
-    // @oracle l2_sq(a,b) == sum (a_i-b_i)^2 in i64; l2_sq(a,a) == 0
+    // @bounds dimension 9; integer-valued components |x| <= 2
+    // @oracle l2_sq(a,b) == sum (a_i-b_i)^2 in integers (0 for equal vectors)
     #[kani::proof]
     #[kani::unwind(11)]
     fn l2_sq_dim9() {
-        check_l2::<9>();
-    }
-
-    // @harness tiers=quick,thorough
-    // @encodes physical::vector::norm, physical::vector::dot
-    // @bounds dimension 2, integer-valued components |x| <= 512
-    // @oracle norm(a)^2 recovers dot(a,a) up to one rounding of sqrt: |norm(a)^2 - dot(a,a)| <= dot(a,a) * 2^-51; norm of the zero vector is 0
-    #[kani::proof]
-    #[kani::unwind(10)]
-    fn norm_dim2() {
-        let (a, ai) = any_vec::<2>();
-        let sq = (ai[0] * ai[0] + ai[1] * ai[1]) as f64;
-        let n = norm(&a);
-        kani::cover!(sq == 25.0 && n == 5.0);
-        assert!(n >= 0.0, "C38.norm_non_negative");
-        if sq == 0.0 {
-            assert!(n == 0.0, "C38.norm_of_zero_vector");
-        }
-        let back = n * n;
-        let err = if back > sq { back - sq } else { sq - back };
-        assert!(err <= sq * (1.0 / 2251799813685248.0), "C38.norm_is_sqrt_of_dot");
+        check_l2::<9>(2);
     }
 
     // @harness tiers=thorough timeout=2400
     // @encodes physical::vector::dot
-    // @bounds dimension 17 (two full chunks, so the f32 lane accumulators add, + remainder of 1); |x| <= 512
+    // @bounds dimension 17 (two full chunks, so the f32 lane accumulators really add, + remainder of 1); |x| <= 2
     // @oracle as dot_dim9
     #[kani::proof]
     #[kani::unwind(19)]
     fn dot_dim17() {
-        check_dot::<17>();
+        check_dot::<17>(2);
     }
 
     // @harness tiers=thorough timeout=2400
     // @encodes physical::vector::l2_sq
-    // @bounds dimension 17; |x| <= 512
+    // @bounds dimension 17; |x| <= 2
     // @oracle as l2_sq_dim9
     #[kani::proof]
     #[kani::unwind(19)]
     fn l2_sq_dim17() {
-        check_l2::<17>();
+        check_l2::<17>(2);
+    }
+
+    // @harness tiers=thorough timeout=2400
+    // @encodes physical::vector::norm, physical::vector::dot
+    // @bounds dimension 2, integer-valued components |x| <= 4
+    // @oracle norm(a) is the correctly rounded sqrt of dot(a,a): exact for perfect squares (3,4 -> 5), zero for the zero vector, and norm(a)^2 within 2^-51 relative of dot(a,a)
+    #[kani::proof]
+    #[kani::unwind(10)]
+    fn norm_dim2() {
+        let (a, ai) = small_vec::<2>(4);
+        let sq = (ai[0] * ai[0] + ai[1] * ai[1]) as f64;
+        let n = norm(&a);
+        kani::cover!(sq == 25.0);
+        assert!(n >= 0.0, "C38.norm_non_negative");
+        if sq == 0.0 {
+            assert!(n == 0.0, "C38.norm_of_zero_vector");
+        }
+        if sq == 25.0 {
+            assert!(n == 5.0, "C38.norm_exact_on_perfect_squares");
+        }
+        let back = n * n;
+        let err = if back > sq { back - sq } else { sq - back };
+        assert!(err <= sq * (1.0 / 2251799813685248.0), "C38.norm_is_sqrt_of_dot");
     }
 
     // @playback
